@@ -54,6 +54,8 @@ class Net:
     """socket module stand-in for the client: every datagram is answered by one dispatch of the real server loop."""
 
     AF_INET = SOCK_DGRAM = 0
+    timeout = TimeoutError  # socket.timeout
+    error = OSError
 
     def __init__(self, srv):
         self.srv = srv
@@ -80,10 +82,19 @@ class Net:
                     hook()
                 if getattr(net, "dead", False):
                     raise ConnectionRefusedError("shm server is gone")
+                if getattr(self, "timeout", None) and getattr(net, "late", 0) > 0:
+                    # the server has handled the request; its answer takes longer than the client is prepared to wait
+                    net.late -= 1
+                    raise TimeoutError("timed out")
                 return self.resp
 
+            timeout = None
+
+            def settimeout(self, t):
+                self.timeout = t
+
             def __getattr__(self, name):
-                # settimeout, setsockopt, getsockname, fileno ...: accepted and ignored
+                # setsockopt, getsockname, fileno ...: accepted and ignored
                 if name.startswith("__"):
                     raise AttributeError(name)
                 return lambda *a, **k: None
@@ -108,6 +119,7 @@ class ShmClient(Harness):
 
     def shards(self, tier):
         out = [{"len": n, "_prefix": [k]} for n in (1, 2) for k in range(4)]
+        out += [{"len": n, "_prefix": [k], "late": 1} for n in (1, 2) for k in range(4)]
         for n in ((3,) if tier == "quick" else (3, 4)):
             out += [{"len": n, "_prefix": [k, j]} for k in range(4) for j in range(2)]
         return out
@@ -139,6 +151,8 @@ class ShmClient(Harness):
             api.publish_client_port(1)
             written: dict[str, tuple[bytes, str]] = {}
             script = []
+            # one answer of the server may arrive late (only a client that sets a receive timeout notices)
+            client.socket.late = 1 if params.get("late") else 0
             try:
                 for i in range(params["len"]):
                     op = ch.pick(4, f"op{i}")  # 0 write, 1 read, 2 purge, 3 write again (redundant)
